@@ -703,6 +703,27 @@ def fam_prec(tier, seed):
         re = t if not nullable(t) else ("cat", t, C("z"))
         out.append(Witness("prec_min_" + n, "prec", Def(top=[Rule(re)], minimal=True)))
         out.append(Witness("prec_full_" + n, "prec", Def(top=[Rule(re)], minimal=False)))
+    # the same operator pairs with every KIND of atom in all leaf positions (adjacent atoms of one
+    # token kind: string string, set set, variable variable, built-in built-in), minimal printing
+    kinds = [("str", (S("ab"), S("cd"), S("ef")), []),
+             ("set", (SET(("a", "c")), SET(("d", "f")), SET("g", "h")), []),
+             ("var", (V("x"), V("y"), V("w")), [("let", "x", C("a")), ("let", "y", S("bc")),
+                                                ("let", "w", SET(("d", "f")))]),
+             ("mixed", (S("ab"), C("c"), S("de")), []), ("mixed2", (C("a"), S("bc"), SET(("d", "f"))), [])]
+    for kn, (ka, kb, kc), lets in kinds:
+        kts = []
+        for n1, f1 in ops2:
+            for n2, f2 in ops2:
+                kts.append(("%s_l_%s" % (n1, n2), f1(f2(ka, kb), kc)))
+                kts.append(("%s_r_%s" % (n1, n2), f1(ka, f2(kb, kc))))
+            for n2, f2 in ops1:
+                kts.append(("%s_lu_%s" % (n1, n2), f1(f2(ka), kb)))
+                kts.append(("%s_ru_%s" % (n1, n2), f1(ka, f2(kb))))
+                kts.append(("%s_of_%s" % (n2, n1), f2(f1(ka, kb))))
+                kts.append(("%s_3ru_%s" % (n1, n2), f1(f1(ka, kb), f2(kc))))
+        for n, t in kts:
+            re = t if not nullable(t, {"x": C("a"), "y": S("bc"), "w": SET(("d", "f"))}) else ("cat", t, C("z"))
+            out.append(Witness("prec_%s_%s" % (kn, n), "prec", Def(top=lets + [Rule(re)], minimal=True)))
     # variables: a bound regex is a unit; top-level lets visible in rule sets, local lets only there
     out.append(Witness("prec_var_unit", "prec", Def(top=[("let", "v", alt(a, b)), Rule(cat(V("v"), c))],
                                                     minimal=True)))
@@ -763,6 +784,39 @@ def fam_actions(tier, seed):
                 "lexgen_util::SemanticActionResult<usize> { lexer.return_(1) }\n"
                 "fn act2<'input, I: Iterator<Item = char> + Clone>(lexer: &mut L<'input, I>) -> "
                 "lexgen_util::SemanticActionResult<Result<usize, u8>> { lexer.return_(Err(1)) }\n"))
+    # rules whose right-hand sides are the same text, next to rules of other kinds, in every
+    # position relative to them, within one rule set and across rule sets
+    clo = "|lexer| { *lexer.state() += 1; lexer.continue_() }"
+    out.append(Witness("actions_dup_simple", "actions", Def(name="L", state_type="u32", top=[
+        Rule(C(" "), kind="skip"),
+        Rule(C("a"), kind="simple", rhs="7"),
+        Rule(C("b"), kind="infallible", rhs=clo),
+        Rule(C("c"), kind="simple", rhs="7"),
+        Rule(C("d"), kind="simple", rhs="8"),
+        Rule(S("ee"), kind="simple", rhs="7"),
+        Rule(C("f"), kind="simple", rhs="8"),
+    ]), kinds={0: "skip", 1: "simple", 2: "infallible", 3: "simple", 4: "simple", 5: "simple", 6: "simple"}))
+    out.append(Witness("actions_dup_sets", "actions", Def(name="L", error_type="u8", sets=[
+        ("Init", [Rule(C(" "), kind="skip"),
+                  Rule(C("a"), kind="simple", rhs="1"),
+                  Rule(C("s"), kind="infallible", rhs="|lexer| lexer.switch(LRule::Other)"),
+                  Rule(C("|"), kind="simple", rhs="2")]),
+        ("Other", [Rule(C("x"), kind="fallible", rhs="|lexer| lexer.return_(Err(3))"),
+                   Rule(C("y"), kind="simple", rhs="2"),
+                   Rule(C("z"), kind="simple", rhs="1"),
+                   Rule(C("t"), kind="infallible", rhs="|lexer| lexer.switch(LRule::Init)")]),
+    ]), kinds={0: "skip", 1: "simple", 2: "infallible", 3: "simple", 4: "fallible", 5: "simple",
+               6: "simple", 7: "infallible"}))
+    out.append(Witness("actions_dup_closures", "actions", Def(name="L", state_type="u32", top=[
+        Rule(C("a"), kind="infallible", rhs=clo),
+        Rule(C("b"), kind="simple", rhs="1"),
+        Rule(C("c"), kind="infallible", rhs=clo),
+        Rule(C(" "), kind="skip"),
+        Rule(C("\t"), kind="skip"),
+        Rule(C("d"), kind="infallible", rhs="|lexer| lexer.return_(1)"),
+        Rule(C("e"), kind="simple", rhs="1"),
+    ]), kinds={0: "infallible", 1: "simple", 2: "infallible", 3: "skip", 4: "skip", 5: "infallible",
+               6: "simple"}))
     return out
 
 
@@ -888,6 +942,9 @@ def fam_mix(tier, seed):
     out = []
     n = 150 if tier == "quick" else 1500
     rnd = random.Random((seed if tier == "thorough" else 0) + 31)
+    rnd_rhs = random.Random((seed if tier == "thorough" else 0) + 77)
+    RHS_POOL = [("skip", None), ("simple", "1"), ("simple", "2"), ("simple", "1"),
+                ("infallible", "|lexer| lexer.return_(1)"), ("infallible", "|lexer| lexer.continue_()")]
     alphabet = "abcxy" + chr(0xE9) + chr(0x2192)
     classes = [SET(("a", "c")), SET(("b", "y")), SET("a", ("x", "y")), B("ascii_digit"),
                diff(SET(("a", "y")), SET(("c", "x"))), diff(ANY, SET(("a", "c"))), SET((chr(0xE0), chr(0xFF))),
@@ -932,6 +989,12 @@ def fam_mix(tier, seed):
             ctx = regex(rnd.randint(0, 2), set(env))
             if rnd.random() < 0.25:
                 ctx = alt(ctx, EOI)
+        # right-hand sides: half of the rules get one from a small pool, so that equal actions occur
+        # at random positions among rules of other kinds (separate generator: the regexes of the
+        # family stay what they were)
+        if rnd_rhs.random() < 0.5:
+            kind, rhs = rnd_rhs.choice(RHS_POOL)
+            return Rule(r, ctx=ctx, kind=kind, rhs=rhs)
         return Rule(r, ctx=ctx)
 
     for i in range(n):
